@@ -177,6 +177,152 @@ def combine (n : Nat) (layers : List (List V)) : List (Option Nat) × List (Nat 
   let st := combineRun (zipCells n layers)
   (st.out, st.dict.map fun (t, id) => (id, t))
 
+/-! ### the shape of the source, as read from the `ast` by harness/facts_local.py (Gen/LocalFacts.lean)
+
+  The generated constants say which comparison each frequency operator applies between the reference and a
+  layer value, under which test a cell is written as NaN, in which order `np.nditer` walks the layers, the
+  `+ 1` of the positions, the `- 1` of rank, where `combine` starts numbering and by how much it advances.
+  The functions below interpret such a shape; Props/C17.lean proves that the shapes found in the current
+  source are the canonical ones, that their interpretation is the hand model above, and states the property
+  for the interpretation of the generated shapes.  An unrecognised piece of source is `.other "<text>"`
+  (or `ok := false`), which no theorem accepts. -/
+
+/-- `ref <cmp> item` -/
+inductive Cmp where
+  | lt | le | eq | ne | ge | gt
+  | other (src : String)      -- not a single comparison of the two, e.g. a call `np.isclose(ref, item)`
+  deriving DecidableEq, Repr, Inhabited
+
+/-- the test under which a cell is written as NaN -/
+inductive NanTest where
+  | anyNan                    -- `np.isnan(comb).any()` / `np.any(np.isnan(comb))`
+  | other (src : String)      -- e.g. `np.isnan(sum(comb))`
+  deriving DecidableEq, Repr, Inhabited
+
+inductive IterOrder where
+  | c | other (src : String)
+  deriving DecidableEq, Repr, Inhabited
+
+inductive Sel where
+  | min | max | other (src : String)
+  deriving DecidableEq, Repr, Inhabited
+
+/-- what every operator shares: `for comb in np.nditer([raster[var].data for var in data_vars], order=…)`
+    collecting `tuple(items.item() …)`, a loop over that list (zipped with the row-major reference list), and
+    `np.reshape(np.array(out), (-1, raster[data_vars[0]].data.shape[1]))` -/
+structure Frame where
+  ok : Bool
+  order : IterOrder
+  layersInOrder : Bool
+  reshapeByCols : Bool
+  deriving DecidableEq, Repr, Inhabited
+
+/-- `count = init; for item in comb: if ref <cmp> item: count += step; out.append(count)` -/
+structure FreqShape where
+  ok : Bool
+  nanTest : NanTest
+  cmp : Cmp
+  countInit : Nat
+  countStep : Nat
+  /-- the reference list is the row-major flattening of the reference layer, zipped with the cell tuples -/
+  refRowMajor : Bool
+  deriving DecidableEq, Repr, Inhabited
+
+/-- `out.append(comb.index(sel(comb)) + offset)` -/
+structure PosShape where
+  ok : Bool
+  nanTest : NanTest
+  sel : Sel
+  offset : Nat
+  deriving DecidableEq, Repr, Inhabited
+
+/-- `comb.sort(); nan if <nanTest> or ref + refOffset <beyond> len(comb) else comb[ref + refOffset]` -/
+structure RankShape where
+  ok : Bool
+  nanTest : NanTest
+  refOffset : Int
+  beyond : Cmp
+  sorts : Bool
+  deriving DecidableEq, Repr, Inhabited
+
+/-- ids start at `firstId`, advance by `idStep` at every new tuple; `keyed`: membership is looked up in the
+    dictionary by the tuple, known tuples get the stored id, and `attrs['key']` is the id -> tuple dictionary -/
+structure CombineShape where
+  ok : Bool
+  nanTest : NanTest
+  firstId : Nat
+  idStep : Nat
+  keyed : Bool
+  deriving DecidableEq, Repr, Inhabited
+
+structure StatsShape where
+  ok : Bool
+  /-- the `funcs` table: statistic name -> numpy reduction -/
+  funcs : List (String × String)
+  /-- every cell gets `funcs[func](comb)` -/
+  perCell : Bool
+  deriving DecidableEq, Repr, Inhabited
+
+structure PopShape where
+  ok : Bool
+  nanTest : NanTest
+  deriving DecidableEq, Repr, Inhabited
+
+def nanS : NanTest → List V → Bool
+  | .anyNan, c => anyNaN c
+  | .other _, _ => false
+
+/-- `ref <cmp> item` on numbers -/
+def cmpS : Cmp → Rat → Rat → Bool
+  | .lt, r, x => decide (r < x)
+  | .le, r, x => decide (r ≤ x)
+  | .eq, r, x => decide (r = x)
+  | .ne, r, x => !decide (r = x)
+  | .ge, r, x => decide (x ≤ r)
+  | .gt, r, x => decide (x < r)
+  | .other _, _, _ => false
+
+def cmpIntS : Cmp → Int → Int → Bool
+  | .lt, a, b => decide (a < b)
+  | .le, a, b => decide (a ≤ b)
+  | .eq, a, b => decide (a = b)
+  | .ne, a, b => !decide (a = b)
+  | .ge, a, b => decide (b ≤ a)
+  | .gt, a, b => decide (b < a)
+  | .other _, _, _ => false
+
+def freqCellS (sh : FreqShape) (ref : V) (c : List V) : V :=
+  if nanS sh.nanTest c then none else
+    match ref with
+    | none => some ((sh.countInit : Nat) : Rat)
+    | some r => some ((sh.countInit + sh.countStep * (vals c).countP (cmpS sh.cmp r) : Nat) : Rat)
+
+def selS : Sel → List Rat → Rat
+  | .min, xs => minOf xs
+  | .max, xs => maxOf xs
+  | .other _, _ => 0
+
+def posCellS (sh : PosShape) (c : List V) : V :=
+  if nanS sh.nanTest c then none else
+    some (((vals c).idxOf (selS sh.sel (vals c)) + sh.offset : Nat) : Rat)
+
+def rankCellS (sh : RankShape) (ref : Int) (c : List V) : R :=
+  if nanS sh.nanTest c || cmpIntS sh.beyond (ref + sh.refOffset) (c.length : Int) then .ok none else
+    match pyIndex (if sh.sorts then sorted (vals c) else vals c) (ref + sh.refOffset) with
+    | some v => .ok (some v)
+    | none => .indexError
+
+def combineStepS (sh : CombineShape) (st : CState) (c : List V) : CState :=
+  if nanS sh.nanTest c then { st with out := st.out ++ [none] }
+  else match (if sh.keyed then st.dict.lookup (vals c) else none) with
+    | some id => { st with out := st.out ++ [some id] }
+    | none => { dict := st.dict ++ [(vals c, st.next)], next := st.next + sh.idStep,
+                out := st.out ++ [some st.next] }
+
+def combineS (sh : CombineShape) (n : Nat) (layers : List (List V)) : List (Option Nat) × List (Nat × List Rat) :=
+  let st := (zipCells n layers).foldl (combineStepS sh) ⟨[], sh.firstId, []⟩
+  (st.out, st.dict.map fun (t, id) => (id, t))
+
 /-! ### the public operators (flat row-major output; the caller reshapes to `(-1, ncols)`) -/
 
 def cellStats (s : Stat) := mapCells (statCell s)
